@@ -107,6 +107,12 @@ CLAIMED.update({
   "text": "Seven scenarios (roa, chain, roll, create, maint, trunc, remove) expand into 73 operation instances: 17 API request kinds and the task kinds sync_parent (both halves, revocation variant), sync_repo, update_rrdp, in the state classes active key, roll_new, roll_old, pending key, queued / unqueued synchronisation, last / not-last publication. The real mutation sequence of each instance is recorded with the fault injector in Count mode; every cut k = 1..N x {crash, failing write} gives 1486 cases (thorough: all; quick: 200 seeded cases covering all 164 kind x mutation-class x mode strata). Each case runs on the disk back-end: a crash is a fresh runtime on the surviving directory plus the start-up lines of the scheduler; then pump, resubmit, the rest of the chain, settle; a fault-free twin runs once per scenario. TLC checks per case that the mutations before the cut are the twin's, that the durable key set equals the fold of the mutations that took effect, that the process goes down and the request is acknowledged exactly where the model says, and evaluates the clauses AllLoad, AckedNeverLost, UnackedAllOrNothing (audit log, memory, object set), RPCleanAfterRestart / AfterPump / Final (relying-party walk over server content, on-disk RRDP snapshot and rsync tree, relative to the twin) and TwinEquivalence on the observed facts; verdicts are compared with the model's predictions.",
   "note": "Assumed: a disk back-end mutation is atomic (cuts are between mutations, never inside one); one fault per history; the label-to-effect translation; same-millisecond task ties resolved in a fixed order; passing time replaced by making rescheduled tasks due; single resource class, local parent and local repository. The ta_proxy / ta_signer / keys / signers namespaces are cut points but their durable effect is not compared. Known findings: the pre-save ordering (upstream issue 1182) and its non-converging consequences, RRDP/rsync files not rewritten after a failed update, publish delta stored but update task lost, no rsync current directory between the two renames, post-save reschedule drops a sync task, delete_ca withdraws best effort.",
   "ref": "§6 C08", "engines": ["TLC", "kv-fault"]},
+ "C18": {
+  "technique": "TLA+ model checking of spec/Locks.tla (TLC interleaves the lock programs recorded from the real code through the lock-table hooks, under flock and RwLock semantics) for deadlock freedom; seeded concurrent schedules on the real code with a watchdog and wait-for-cycle analysis; TLC (KrillConcTrace.tla) decides for every run whether results and final state are those of a serial execution consistent with real-time order",
+  "level": "model_checking",
+  "text": "Lock programs: about 55 operation kinds plus every task they spawn are run alone on both back-ends with the lock hooks on (about 360 programs, 8400 lock steps); they are cut into segments in which the thread holds nothing at both ends, repeated balanced blocks are collapsed and duplicates removed (38 distinct segments, nesting up to 5). TLC interleaves the segments exhaustively under flock semantics and RwLock with and without writer preference: complete segments for 2 threads (quick) and 2-3 threads (thorough), after one / two rounds of leaf-lock elimination (sound for deadlocks, argument at leaf_reduce in checks/c18.py) for 3 / 4 threads; a deadlock of the model is re-run as directed scenarios on the real code before it is reported. Schedules: 2-4 worker threads plus a scheduler thread (a copy of the scheduler loop, or the real verif_run for 20% of scenarios), 7 scenario families on both back-ends with delay injection at the yield points; a 30 s watchdog guards every call, a timeout with a wait-for cycle in the lock table (seen twice, 0.5 s apart) is a violation, one without is a tool error. Linearisability: each call logs start and end numbers from one global atomic counter, its arguments and result; TLC searches a serial order consistent with real-time precedence under a reference model of ROA add/delete, child add/update/remove, RFC 6492 list, publisher add/remove, RFC 8181 delta and purge; the final state comes from the API, the RRDP and rsync files on disk and the relying-party walk.",
+  "note": "Schedules on the real code are sampled, not enumerated (quick 315 scenarios, thorough 2700). Lock programs are those of the kinds and states the recorder visits; three locks have no hook and are modelled from source (status cache, pubd update_lock, rsync lock): a deadlock involving them would surface as a tool error, not as a violation. Refusals are compared as ok / refused plus a whitelist of error labels per operation. One refresh_all round runs before the final observation. Known findings: publish races publisher removal (F1), child add answered 'unknown' (F2).",
+  "ref": "§6 C18", "engines": ["TLC", "kv-conc"]},
  "C13": {
   "technique": "TLA+ decision-table model (spec/Authz.tla) checked with TLC; TLC-enumerated request cases executed against the real daemon started in-process (Unix socket and TLS); TLC (AuthzTrace.tla) judges every recorded request",
   "level": "model_checking",
@@ -159,6 +165,8 @@ def main():
              "kind_free_text": "Rust harness feeding seeded malformed inputs to the provisioning, publication and API entry points inside catch_unwind and through the real HTTP request processing"},
             {"name": "kv-fault", "path": "harness-fault/", "serves_properties": [p for p in served if "kv-fault" in CLAIMED[p]["engines"]],
              "kind_free_text": "Rust harness enumerating crash and I/O-error cuts at every key-value and file-system mutation of every operation, with restart, pump, resubmission and a fault-free twin"},
+            {"name": "kv-conc", "path": "harness-conc/", "serves_properties": [p for p in served if "kv-conc" in CLAIMED[p]["engines"]],
+             "kind_free_text": "Rust harness recording lock programs through the lock-table hooks and running seeded concurrent schedules (worker threads plus a scheduler thread) with a watchdog"},
             {"name": "kv-auth", "path": "harness-auth/", "serves_properties": [p for p in served if "kv-auth" in CLAIMED[p]["engines"]],
              "kind_free_text": "Rust harness for signed RFC 6492 / RFC 8181 exchanges and the TA proxy/signer exchange"},
         ],
